@@ -5,6 +5,7 @@ From Coq Require Import List Bool NArith String.
 From PC Require Import Base.Cmp Base.Result Model.Pep440 Spec.Pep440Spec Spec.Specifier Model.VConstraint
      Proofs.VersionFacts Proofs.RangeSpec Proofs.SpecifierAgree.
 From PC Require Import Proofs.UnionHull Proofs.UnionExact Proofs.InterExact Proofs.ParseCompose Proofs.Pep440RoundTrip Proofs.ClauseText Proofs.WildcardText Proofs.WildcardMembership.
+From PC Require Import Gen.RangeCmp Gen.RangeAllows Proofs.GenAgreeAllows.
 Import ListNotations.
 Open Scope string_scope.
 
@@ -128,3 +129,10 @@ Example C04_compose_example :
     mapR (parse_single_pep false) [">=1.0"; "<2.0"; "~=1.4"]%string = Ok cs /\
     forallb goodc cs = true /\ forallb simple cs = true /\ vc_str g = Ok ">=1.4,<2.0"%string.
 Proof. do 2 eexists. repeat split; vm_compute; reflexivity. Qed.
+
+(* the tie by translation: VersionRange.allows of version_range.py, re-translated from /repo's working tree on this run
+   (coq/Gen/RangeAllows.v; the bound adjustments it uses are coq/Gen/RangeCmp.v), is the function the membership theorems above speak
+   about.  A change of meaning in the source breaks this proof obligation before any input is generated. *)
+Theorem C04_allows_of_current_source : forall r v, rr_allows_gen r v = rr_allows r v.
+Proof. exact rr_allows_agrees. Qed.
+Print Assumptions C04_allows_of_current_source.
